@@ -24,3 +24,37 @@ Fixpoint session (reset : bool) (rd : reader) (pending : list Z) (conns : list c
       let p0 := if reset then [] else pending in
       reads rd p0 src sizes :: session reset rd (reads_final rd p0 src sizes) rest
   end.
+
+(* ---- Close of the connections of one session ----
+   Every handshake establishes a connection over a new transport and hands out a handle to it; the owner of a
+   handle may close it any number of times, also late, after later connections have been established (gRPC closes
+   a transport's connection from several goroutines). `shared = true` is the code before fix 1556a75: every handle
+   is the session's one NoiseGrpcConn and its Close closes whatever transport the object holds now, i.e. the
+   latest; `shared = false` is the code after it: a handle closes the transport it was established over. *)
+Inductive cev := CHandshake | CClose (k : nat).
+
+Fixpoint set_closed (k : nat) (l : list bool) : list bool :=
+  match l, k with
+  | [], _ => []
+  | _ :: rest, O => false :: rest
+  | b :: rest, S k' => b :: set_closed k' rest
+  end.
+
+(* the state: for every transport so far, is it still open *)
+Definition cstep (shared : bool) (st : list bool) (ev : cev) : list bool :=
+  match ev with
+  | CHandshake => st ++ [true]
+  | CClose k =>
+      if Nat.ltb k (length st)
+      then set_closed (if shared then Nat.pred (length st) else k) st
+      else st   (* no such handle yet *)
+  end.
+
+Definition crun (shared : bool) (st : list bool) (evs : list cev) : list bool := fold_left (cstep shared) evs st.
+
+Fixpoint handshakes (evs : list cev) : nat :=
+  match evs with
+  | [] => O
+  | CHandshake :: rest => S (handshakes rest)
+  | _ :: rest => handshakes rest
+  end.
